@@ -33,7 +33,7 @@ EXPLANATION = (
     "in a handler whose exception class the guarded zipfile call raises for encryption only (checked against the raise "
     "sites of zipfile's own source, earlier handlers taken into account). (CONST) the detector constants equal the "
     "format specifications (FIB fEncrypted = bit 8 at offset 0x0A, ZIP general-purpose bit 0, BIFF FILEPASS 0x002F, "
-    "[MS-OFFCRYPTO] stream names, 7z AES coder id 06F10701, xmlenc EncryptedData / rights.xml)."
+    "[MS-OFFCRYPTO] stream names, 7z AES coder id 06F10701, xmlenc EncryptedData / rights.xml). (CONST, continued) every positive exit of the XLS record scan is under `record id == 0x002F` alone; an EPUB is rejected exactly when some EncryptedData entry is not a font-obfuscation entry (quantifier form checked), font obfuscation being EncryptionMethod/@Algorithm in {http://www.idpf.org/2008/embedding, http://ns.adobe.com/pdf/enc#RC}."
 )
 NOT_DECIDED = ["detector correctness on every container instance (stream names at depth, FILEPASS position inside substreams, PDF revisions) — value level",
                "equality of extracted content for PDFs with an empty user password (C20-PATCH checks only that every AES binding is installed)"]
